@@ -31,6 +31,8 @@ type Document struct {
 	parts map[string][]byte
 	// 图片ID计数器，确保每个图片都有唯一的ID
 	nextImageID int
+	// 打开的文档中 styles.xml 关系原有的ID（新建文档为空，保存时使用 rId1）
+	stylesRelID string
 	// 脚注/尾注管理器（按文档独立）
 	footnoteManager *FootnoteManager
 	// 列表编号管理器（按文档独立）
@@ -3029,6 +3031,9 @@ func (d *Document) serializeRelationships() {
 // 而对打开的、ID 不连续或不以 rId 开头的文档也不会产生重复ID。
 func (d *Document) nextDocumentRelationshipID() string {
 	used := map[string]bool{"rId1": true}
+	if d.stylesRelID != "" {
+		used[d.stylesRelID] = true
+	}
 	for _, rel := range d.documentRelationships.Relationships {
 		used[rel.ID] = true
 	}
@@ -3046,6 +3051,10 @@ func (d *Document) stylesRelationshipID() string {
 	used := map[string]bool{}
 	for _, rel := range d.documentRelationships.Relationships {
 		used[rel.ID] = true
+	}
+	// 打开的文档保留 styles.xml 关系原有的ID
+	if d.stylesRelID != "" && !used[d.stylesRelID] {
+		return d.stylesRelID
 	}
 	if !used["rId1"] {
 		return "rId1"
@@ -3225,6 +3234,8 @@ func (d *Document) parseDocumentRelationships() error {
 	for _, rel := range relationships.Relationships {
 		if rel.Type != "http://schemas.openxmlformats.org/officeDocument/2006/relationships/styles" {
 			filteredRels = append(filteredRels, rel)
+		} else if d.stylesRelID == "" {
+			d.stylesRelID = rel.ID
 		}
 	}
 
